@@ -13,7 +13,7 @@ from ..run import hyp_search, mix
 RULE = ('(a) name layer, enumerated completely: every element class x every schema child name and every schema '
         'attribute name (dot name derived from the ORACLE\'s name): unset read returns None, set-by-dot == explicit '
         'add_child / constructor keyword (same verdict, same text), read-back returns the stored child / value, '
-        '=None removes, =None on an unset attribute (by dot and by constructor keyword) is a silent no-op; undeclared names raise AttributeError on read and write; for every repeatable child: with three same-named children the dot read returns the first one the serialisation shows, also after replace_child of the 2nd / 3rd, and =None then removes exactly that child (twin: explicit remove); where a removal followed by an addition makes insertion order and document order of same-named text children differ, xml_x = value / instance / None equals find_child + value_ / replace_child / remove.  (b) Hypothesis-drawn intent '
+        '=None removes, =None on an unset attribute (by dot and by constructor keyword) is a silent no-op; undeclared names raise AttributeError on read and write; for every repeatable child: with three same-named children the dot read returns the first one the serialisation shows, also after replace_child of the 2nd / 3rd, and =None then removes exactly that child (twin: explicit remove); xml_x = an instance of ANOTHER class is refused and changes nothing; where a removal followed by an addition makes insertion order and document order of same-named text children differ, xml_x = value / instance / None equals find_child + value_ / replace_child / remove.  (b) Hypothesis-drawn intent '
         'sequences (child := value | instance | None, attribute := value | None, constructor keywords; plain add_child calls on both surfaces create states with several same-named children, holes after removals included) executed '
         'once through the dot surface and once through add_child / replace_child / remove / value_ / constructor '
         'keywords; after every intent both elements must agree on exception-vs-success, exception type for child / '
@@ -78,6 +78,20 @@ def name_child(el, child):
             return F('dot-none-differs-from-remove', t, inp, {'dot': r1.verdict(), 'explicit': r2.verdict()})
         if call(a.get_children, False).value:
             return F('dot-none-did-not-remove', t, inp, [c.name for c in a.get_children(False)])
+    # xml_<child> names ONE child class: an instance of another class is not a value for it - refused, nothing changes
+    # (the explicit API has no call that would put a <y> where an <x> was asked for)
+    others = [y for y in s.alphabet(t) if y != child][:2] + ['staff' if child != 'staff' else 'dot']
+    for y in others:
+        rc = call(fresh, el)
+        if not rc.ok:
+            break
+        c = rc.value
+        before = snapshot(c)
+        r = call(setattr, c, dot, stub(y))
+        if r.ok or snapshot(c) != before:
+            return F('dot-accepts-instance-of-another-class', t, dict(inp, offered=y),
+                     {'verdict': r.verdict(), 'children': [k.name for k in call(c.get_children, False).value or []]},
+                     'refused', r.site)
     return None
 
 
